@@ -113,3 +113,26 @@ def _replay_from_exception(rp):
 
 
 BUILDERS["exception:MementoException.from_exception"] = _replay_from_exception
+
+
+def _args_natives(ns_get):
+    def name_index(pn, k):
+        return list(pn).index(k) if k in list(pn) else -1
+
+    def free_rank(f, p):
+        pn = list(f.fn_reference.parameter_names)
+        b1 = ns_get("B1")
+        return sum(1 for q in range(min(p, len(pn))) if not b1(f, pn[q]))
+    return {"name_index": name_index, "free_rank": free_rank}
+
+
+_prev_natives2 = natives
+
+
+def natives(rp, builder):   # noqa: F811
+    n = _prev_natives2(rp, builder)
+    if "args" in (rp.get("modules") or []):
+        holder = {}
+        n.update(_args_natives(lambda name: holder["ns"][name]))
+        n["__bind_ns__"] = holder
+    return n
